@@ -1,3 +1,30 @@
 """vcheck configuration of work group E: PROPS = {"Cxx": {"families": [fam("name", quick_n, thorough_n)], "defects": ["Dn"]}}"""
 
-PROPS = {}
+PROPS = {
+    "C04": {
+        "families": [
+            fam("c04.match", 3000, 25000),
+            fam("c04.parse", 4000, 40000),
+            fam("c04.textmatch", 3000, 25000),
+            fam("c04.perm", 1000, 8000),
+            fam("c04.units", 4000, 30000),
+        ],
+        "defects": ["D3"],
+        "rule": "op lines generated from VERIF_SEED: c04.match = rule from the modifier grammar x request aimed at its values "
+                "(Go Match vs model vs spec from the modifier values); c04.parse = NewNetworkRule field dump vs the parser model on grammar, "
+                "byte-mutated and real-list texts; c04.textmatch = Go parse+Match vs specMatch(parse model(text)); c04.units = IsDomainName / splitWithEscapeCharacter / parseRuleText / findShortcut one by one against their models on boundary-aimed inputs (labels of 62-64 bytes, xn-- prefixes, 252-254 byte names, escapes); c04.perm = Go-only assert: permuting the values inside every list-valued modifier changes neither the parse outcome, the sorted fields nor Match on 12 aimed requests; distinct by hash of the op "
+                "input; non-trivial = the answer is not F/err/none and the input is in the model's domain",
+    },
+    "C12": {
+        "families": [
+            fam("c12.newrule", 4000, 40000),
+            fam("c12.crash", 150, 1000),
+            fam("c12.inert", 100, 600),
+        ],
+        "defects": ["D2"],
+        "rule": "c12.newrule = rules.NewRule vs the model on grammar lines, hosts/cosmetic/comment lines and real-list lines with byte "
+                "mutations (answer none|err|kind:text:id|PANIC); c12.crash = no panic in NewRule/Match/NewDNSEngine/NewEngine/"
+                "NewNetworkEngine + a batch of queries for a mutated list (Go-only assert); c12.inert = results of the real engines on a "
+                "batch are equal for L and L + noise lines / CRLF (Go-only assert)",
+    },
+}
